@@ -36,7 +36,7 @@ void profile_blast(RunCtx& ctx)
     kn.rate_before_invariant = false;  // list_blocks() computes label XPaths for the invariant-first order
     const Rng render_rng = rng.fork();
     // layouts in front of the fault site: leading blank lines, CRLF, comments, continuations
-    static const std::vector<std::string> prefixes{"", "", "\n\n", "\r\n\r\n", "/* c */ ", "// c\n", " \\\n ", "\t", "/* a\n b */\n", "\n\r\n \n"};
+    static const std::vector<std::string> prefixes{"", "", "\n\n", "\r\n\r\n", "/* c */ ", "// c\n", " \\\n ", "\t", "/* a\n b */\n", "\n\r\n \n", "/**\n * a\n *\n */\n", "/***\n***/ "};
     auto blocks = list_blocks(m);
     std::vector<std::string> prefix_of(blocks.size());
     for (size_t b = 0; b < blocks.size(); ++b) {
